@@ -212,6 +212,14 @@ def run_log(chk, log, refs, workdir, trunc_fraction=0.5, label=""):
             chk.violation("an identical earlier request was stored, but this repetition was not served from the cache (solved again)", sc,
                           klass={"check": "effective", "halo": req["halo"]})
             return n
+        # the caller normalises / rescales its result in place afterwards: what it does to its arrays is its own business
+        try:
+            for arr in (out[1], out[2]):
+                arr_ = np.asarray(arr)
+                if arr_.flags.writeable:
+                    arr_ *= -3.0
+        except Exception:
+            pass
         if hit != op["hit"] or solved != op["solved"]:
             brief = [dict(op=o["op"], at=o.get("at"), req={k: v for k, v in o.get("req", {}).items() if v}) for o in log]
             chk.drift_note("hit/solved = %s/%s, the specification says %s/%s at op %d of %s" % (hit, solved, op["hit"], op["solved"], idx, json.dumps(brief)))
